@@ -49,12 +49,15 @@ fn quarantine_allocations(allocations: &Vec<PreparedWrite>) {
 }
 
 pub uninterp spec fn cleanups(d: &DiskIO) -> nat;
+// whether the last scrub-and-release cleanup on this handle succeeded
+pub uninterp spec fn cleanup_succeeded(d: &DiskIO) -> bool;
 
 #[verifier::external_body]
 fn cleanup_failed_allocations(disk_io: &mut DiskIO, free_space: &FreeSpaceLock, allocations: &Vec<PreparedWrite>, stats: &Statistics, clear_journal: bool) -> (r: Result<()>)
     ensures
         cleanups(final(disk_io)) == cleanups(old(disk_io)) + 1,
         old(disk_io).log().is_prefix_of(final(disk_io).log()),
+        (r is Ok) == cleanup_succeeded(final(disk_io)),
 {
     unimplemented!()
 }
